@@ -39,7 +39,10 @@ def x_mantissas():
               "1.06", "1.094", "1.095", "1.096", "1.2345", "1.25", "1.35",
               "1.45", "1.55", "2.25", "2.35", "3.5", "4.5", "4.45", "4.55",
               "6.5", "7.5", "8.5", "8.45", "8.55", "9.05", "9.15", "9.25",
-              "9.35", "9.45", "9.55"):
+              "9.35", "9.45", "9.55",
+              # many significant digits (shown when the error is tiny)
+              "1.2812412309", "3.1415926535", "9.8765432123",
+              "5.0000000499"):
         ms.add(m)
     return sorted(ms)
 
